@@ -366,17 +366,54 @@ Grid::simplify(Grid_Generator_System& ggs, Dimension_Kinds& dim_kinds) {
   // the points and parameters, but none of the lines: a row that was
   // factored before such a scaling would no longer be reduced with
   // respect to the pivots that are lines.
-  for (dimension_type dim = 0, row_index = 0; dim < num_columns; ++dim) {
-    if (dim_kinds[dim] != GEN_VIRTUAL) {
-      reduce_reduced<Grid_Generator_System>
-        (ggs.sys.rows, dim, row_index, dim, num_columns - 1, dim_kinds);
-      ++row_index;
+  // Moreover, the system divisor has to be the least one that allows for
+  // representing the point and the parameters: otherwise the same grid
+  // would have several minimized generator systems, differing by a
+  // common factor of the divisor and of all the coefficients of the point
+  // and the parameters (e.g., `p(0/2), q(2*A/2)' and `p(0), q(A)'), and
+  // the syntactic comparison of minimized systems (see
+  // Grid::quick_equivalence_test()) would tell apart equal grids.
+  // Note: a common factor may show up when factoring out the lines and
+  // the representatives chosen by reduce_reduced() do depend on it:
+  // hence, the factoring is repeated after each simplification.
+  PPL_ASSERT(ggs.sys.rows[0].is_point());
+  PPL_DIRTY_TEMP_COEFFICIENT(system_divisor);
+  PPL_DIRTY_TEMP_COEFFICIENT(common_factor);
+  while (true) {
+    for (dimension_type dim = 0, row_index = 0; dim < num_columns; ++dim) {
+      if (dim_kinds[dim] != GEN_VIRTUAL) {
+        reduce_reduced<Grid_Generator_System>
+          (ggs.sys.rows, dim, row_index, dim, num_columns - 1, dim_kinds);
+        ++row_index;
+      }
     }
+
+    system_divisor = ggs.sys.rows[0].expr.inhomogeneous_term();
+    common_factor = system_divisor;
+    for (dimension_type i = ggs.sys.rows.size();
+         i-- > 0 && common_factor != 1; ) {
+      const Grid_Generator& row = ggs.sys.rows[i];
+      if (!row.is_line()) {
+        // Neither the first nor the last coefficient is considered.
+        gcd_assign(common_factor, common_factor,
+                   row.expr.gcd(1, num_columns));
+      }
+    }
+    if (common_factor == 1) {
+      break;
+    }
+    exact_div_assign(system_divisor, system_divisor, common_factor);
+    for (dimension_type i = ggs.sys.rows.size(); i-- > 0; ) {
+      Grid_Generator& row = ggs.sys.rows[i];
+      if (!row.is_line()) {
+        row.expr.exact_div_assign(common_factor, 1, num_columns);
+      }
+    }
+    ggs.sys.rows[0].set_divisor(system_divisor);
   }
 
   // Ensure that the parameter divisors are the same as the system
   // divisor.
-  const Coefficient& system_divisor = ggs.sys.rows[0].expr.inhomogeneous_term();
   for (dimension_type i = ggs.sys.rows.size() - 1,
          dim = num_columns - 1; dim > 0; --dim) {
     switch (dim_kinds[dim]) {
